@@ -1389,3 +1389,17 @@ Theorem C05_db_insert_new_alias_any_fill_preserves_stored_db_partial :
                         sdepth sp' = sdepth sp /\ frame (hp sp) (hp sp') (sd_foot root w) (sd_foot root w')).
 Proof. exact so_alias_insert_new_stored_full. Qed.
 Print Assumptions C05_db_insert_new_alias_any_fill_preserves_stored_db_partial.
+
+(* non-vacuity of the GROW path (theories/StoredDbOpsAliasExample3.v): sg_prog = DbMapData::new (an EMPTY table, capacity 0: what
+   the alias tables of a new database are), then MapImpl::insert("k", 2) with so_map_code.  The run on the file-like model of
+   storage.rs from the initial state ENDS (the table is resized to 64 slots, rehashed, the pair inserted) and the record map
+   it reaches represents a table that satisfies C19's invariant with minimum capacity 64, has at least 64 slots and holds
+   exactly the pair ("k", 2) *)
+From Agdb Require Import StoredDbOpsAliasExample3.
+Example C05_map_sample_insert_into_empty_grows :
+  exists sp d ss ks vs t,
+    mrep bytes Z ce_string ce_i64 law_string law_i64 (hp sp) d ss ks vs t /\
+    OpenMapRefineStep.PInv bytes Z sa_hs 64 (ct_omap bytes Z t) /\ Permutation (sd_table_entries t) [(sa_new, 2%Z)] /\
+    (64 <= lenN (ct_states t))%N.
+Proof. exact sg_sample. Qed.
+Print Assumptions C05_map_sample_insert_into_empty_grows.
